@@ -19,6 +19,10 @@ package main
 //       <prefix>/userinfo or on a protected path                                           [Redis store]
 //   R3  server-side store: a sign-out after which the stored session still exists (DEL failed: injected by the RESP front)
 //       is answered with an error (status >= 400), never with the success redirect        [Redis store]
+//       Failure shapes: the DEL alone (5 kinds); reads only; the store failing for the whole request (reads of the session
+//       chain AND every DEL: per-key pairs of kinds, and the whole store down on a front of its own); latency (the DEL is held
+//       for seconds and then fails or succeeds: the answer must wait for the store's verdict). The verdict is the state after
+//       the answer (key present + status), never a measured time.
 //   R4  (title of the property; reported under its own signature) the browser as it is after a successful sign-out is
 //       not authenticated on its next request                                              [both stores]
 // For the cookie store a stateless cookie taken from the archive may still authenticate — not a violation, recorded.
@@ -52,6 +56,8 @@ type c11Cfg struct {
 	Domains []string    // configured cookie domains
 	Rewritten [][2]string // (browser host, Host header seen by the proxy): front proxy that rewrites Host, no --reverse-proxy
 	Fronted bool
+	Special string      // "" | "slow" | "outage": fronted configuration with its own job list (not the general history list)
+	hub     *vfRedisHub // outage configuration: its own hub, so that SetDown hits no other configuration
 	BackendLogout bool    // --backend-logout-url=<provider>/logout?id_token_hint={id_token}
 	ReverseProxy bool     // --reverse-proxy=true: the front proxy passes the public host in X-Forwarded-Host
 	p2      *vfProxy      // Redis store: a second instance (replica) with the same flags sharing the same Redis
@@ -183,7 +189,7 @@ type c11Stall struct {
 func c11NewTable(w *vfWorld, seed int64) *c11Table {
 	const al = "ABCDEFGHIJKLMNOPQRSTUVWXYZabcdefghijklmnopqrstuvwxyz0123456789-_"
 	rng := rand.New(rand.NewSource(seed))
-	b := make([]byte, 40000)
+	b := make([]byte, 80000) // offset < 20000 + the largest pad (c11HugePads)
 	for i := range b {
 		b[i] = al[rng.Intn(64)]
 	}
@@ -290,12 +296,17 @@ func (h c11Hist) refreshClass() string {
 
 var c11PadClasses = []int{0, 1500, 3800, 6000}
 
+// c11HugePads: unusually large sessions for the cookie store (incompressible ID token): ~45 kB encoded = 11-13 cookies and
+// ~60 kB = 15-17 cookies (part indices with two digits); thorough adds ~80 kB = 20+ cookies. Go's server accepts 1 MB of headers.
+var c11HugePads = []int{25500, 33500, 45000}
+
 func c11Histories(run *vfRun, cfg *c11Cfg, ci int) []c11Hist {
 	rng := rand.New(rand.NewSource(run.Env.Seed*9973 + int64(ci)*131))
 	var out []c11Hist
 	n := 0
 	var users []int // consecutive logins of the histories made next (nil = one login)
 	both := false   // the histories made next end with a jar holding both cookie forms
+	var huge []int  // the histories made next take the pad of each issuance from here (c11HugePads / ordinary sizes) instead of the class ladder
 	mk := func(p0 int, k int, refreshAt []int, dir []int) {
 		h := c11Hist{K: k, RefreshAt: refreshAt}
 		if len(users) > 1 {
@@ -309,6 +320,12 @@ func c11Histories(run *vfRun, cfg *c11Cfg, ci int) []c11Hist {
 		for _, d := range dir {
 			cls = ((cls+d)%4 + 4) % 4
 			h.Pads = append(h.Pads, c11PadClasses[cls]+rng.Intn(40))
+		}
+		if huge != nil {
+			h.Pads = nil
+			for _, x := range huge {
+				h.Pads = append(h.Pads, x+rng.Intn(40))
+			}
 		}
 		h.Method = []string{"GET", "POST"}[n%2]
 		h.Rd = []string{"", "/after?x=1", "https://evil.example/", "/"}[(n/2)%4]
@@ -352,6 +369,34 @@ func c11Histories(run *vfRun, cfg *c11Cfg, ci int) []c11Hist {
 		mk(3, 2, []int{0}, []int{-3})
 		mk(1, 3, []int{1}, []int{-1})
 		both = false
+		// unusually large sessions: more than 10 and more than 13 cookies at sign-out (two-digit part indices), reached at login,
+		// by growing in the middle of the history, and by growing / shrinking on the sign-out request itself
+		H := c11HugePads
+		huge = []int{H[1]}
+		mk(0, 1, nil, nil) // 14+ parts from the login on
+		huge = []int{1500, H[0]}
+		mk(0, 2, []int{1}, []int{0}) // grows from 2 to 11+ parts in the middle
+		if ci%2 == 0 || run.Env.Thorough() {
+			huge = []int{H[1], H[0]}
+			mk(0, 1, []int{1}, []int{0}) // 14+ parts shrink to 11+ on the sign-out request itself
+		}
+		if ci%2 == 1 || run.Env.Thorough() {
+			huge = []int{H[0], H[1]}
+			mk(0, 0, []int{0}, []int{0}) // 11+ parts grow to 14+ on the sign-out request itself
+		}
+		if run.Env.Thorough() {
+			huge = []int{H[2]}
+			mk(0, 0, nil, nil)
+			huge = []int{H[0], H[2], 1500}
+			mk(0, 2, []int{0, 1}, []int{0, 0})
+			huge = []int{H[1], 3800, H[1]}
+			mk(0, 3, []int{1, 3}, []int{0, 0})
+			both = true
+			huge = []int{H[1], 0}
+			mk(0, 2, []int{1}, []int{0}) // 14+ parts shrink to the plain cookie; the jar holds both forms
+			both = false
+		}
+		huge = nil
 	}
 	// several consecutive logins in one browser without a sign-out in between: as different users and as the same user
 	for p0 := 0; p0 < 4; p0++ {
@@ -406,6 +451,64 @@ func (f *c11Faults) get(key string) (string, bool) {
 	defer f.mu.Unlock()
 	k, ok := f.m[key]
 	return k, ok
+}
+
+// c11FaultFor: what a fault specification means for one command on the ticket's key.
+//   "<kind>"               the DEL fails                                     (reads are served)
+//   "GET:<kind>"           reads fail                                        (a DEL would succeed)
+//   "ALL:<kindG>/<kindD>"  the store fails for the whole request: every GET fails with kindG and every DEL with kindD
+//   "SLOW<ms>:<kind>"      latency, then failure: the DEL is held for <ms> milliseconds and then fails with <kind>;
+//                          kind "late-ok" = it is held and then carried out normally
+//   "DOWN"                 the whole store is down for the request (handled by the configuration's own hub, not per key)
+// hold > 0: the command is held that long (outside the hub's mutex) before the fault / the execution.
+func c11FaultFor(spec, op string) (kind string, hold time.Duration, hit bool) {
+	switch {
+	case spec == "" || spec == "DOWN":
+		return "", 0, false
+	case strings.HasPrefix(spec, "GET:"):
+		if op == "GET" {
+			return strings.TrimPrefix(spec, "GET:"), 0, true
+		}
+	case strings.HasPrefix(spec, "ALL:"):
+		gd := strings.SplitN(strings.TrimPrefix(spec, "ALL:"), "/", 2)
+		if op == "GET" {
+			return gd[0], 0, true
+		}
+		if op == "DEL" {
+			return gd[len(gd)-1], 0, true
+		}
+	case strings.HasPrefix(spec, "SLOW"):
+		k := strings.IndexByte(spec, ':')
+		ms := 0
+		fmt.Sscanf(spec[4:k], "%d", &ms)
+		if op == "DEL" {
+			kind = spec[k+1:]
+			if kind == "late-ok" {
+				kind = ""
+			}
+			return kind, time.Duration(ms) * time.Millisecond, true
+		}
+	default:
+		if op == "DEL" {
+			return spec, 0, true
+		}
+	}
+	return "", 0, false
+}
+
+// c11FaultClass: the family of a fault specification (for cells, counters and signatures).
+func c11FaultClass(spec string) string {
+	switch {
+	case spec == "":
+		return ""
+	case spec == "DOWN" || strings.HasPrefix(spec, "ALL:"):
+		return "outage"
+	case strings.HasPrefix(spec, "GET:"):
+		return "read"
+	case strings.HasPrefix(spec, "SLOW"):
+		return "slow"
+	}
+	return "delete"
 }
 
 // c11TicketKey decodes the Redis key from a ticket cookie value: base64url("v2.<b64 id>.<b64 secret>")|ts|sig.
@@ -778,7 +881,12 @@ func (r *c11Runner) one(cfg *c11Cfg, h c11Hist) {
 			run.Inconclusive("no live ticket key before sign-out")
 			return
 		}
-		if h.Fault != "" {
+		if h.Fault == "DOWN" {
+			if cfg.hub == nil {
+				run.Inconclusive("outage history on a configuration without its own store front")
+				return
+			}
+		} else if h.Fault != "" {
 			for k := range keys {
 				r.faults.set(k, h.Fault)
 				defer r.faults.del(k)
@@ -801,8 +909,13 @@ func (r *c11Runner) one(cfg *c11Cfg, h c11Hist) {
 	}
 	issuedBefore := r.tab.Issued(sub)
 	n0 := len(b.Jar.Archive)
+	if h.Fault == "DOWN" {
+		cfg.hub.SetDown(true) // from the first command of the sign-out request on: established connections are closed, new ones get no answer
+	}
 	so := send(req)
-	if h.Fault != "" {
+	if h.Fault == "DOWN" {
+		cfg.hub.SetDown(false)
+	} else if h.Fault != "" {
 		for k := range keys {
 			r.faults.del(k) // the fault lasts for the sign-out request only: the store is healthy again for everything that follows
 		}
@@ -860,6 +973,14 @@ func (r *c11Runner) one(cfg *c11Cfg, h c11Hist) {
 	}
 	run.Eval(cell)
 	run.Count("histories", 1)
+	if cfg.Store == "cookie" && len(presented) >= 11 {
+		run.Count("sign_outs_presenting_11+_session_cookies", 1)
+		run.Count("sign_outs_presenting_11+_session_cookies:name="+c11NameClass(cfg.Name), 1)
+	}
+	if cfg.Store == "cookie" && len(presented) >= 14 {
+		run.Count("sign_outs_presenting_14+_session_cookies", 1)
+		run.Count("sign_outs_presenting_14+_session_cookies:name="+c11NameClass(cfg.Name), 1)
+	}
 	if h.ProxyHost != "" {
 		run.Count("histories_host_rewritten", 1)
 	}
@@ -880,6 +1001,12 @@ func (r *c11Runner) one(cfg *c11Cfg, h c11Hist) {
 		case keyLeft != "" && so.Code < 400 && strings.HasPrefix(h.Fault, "GET:"):
 			run.Violation("c11:success-answer-although-session-still-stored-after-read-fault", fmt.Sprintf("[%s] reads of the ticket failed during the sign-out request (%s; a DEL would have succeeded): sign-out answered %d but the session is still stored", cfg.Label, h.Fault, so.Code),
 				detail(map[string]interface{}{"redis_key_still_present": keyLeft, "status": so.Code, "location": so.Location()}))
+		case keyLeft != "" && so.Code < 400 && c11FaultClass(h.Fault) == "outage":
+			run.Violation("c11:success-answer-although-store-failed-throughout-sign-out", fmt.Sprintf("[%s] the store failed for the whole sign-out request (%s: the reads of the session chain and every DEL of the ticket failed) and the session is still stored, but sign-out answered %d instead of an error; the store is healthy again for the replays", cfg.Label, h.Fault, so.Code),
+				detail(map[string]interface{}{"redis_key_still_present": keyLeft, "status": so.Code, "location": so.Location()}))
+		case keyLeft != "" && so.Code < 400 && c11FaultClass(h.Fault) == "slow":
+			run.Violation("c11:success-answer-although-slow-store-delete-not-done", fmt.Sprintf("[%s] the Redis DEL of the ticket was held by the store and then %s (%s; the client's read timeout is longer than that): sign-out answered %d although the session was still stored when the answer was there", cfg.Label, map[bool]string{true: "carried out", false: "failed"}[strings.HasSuffix(h.Fault, ":late-ok")], h.Fault, so.Code),
+				detail(map[string]interface{}{"redis_key_still_present": keyLeft, "status": so.Code, "location": so.Location()}))
 		case keyLeft != "" && so.Code < 400 && h.Fault != "":
 			run.Violation("c11:success-answer-although-store-delete-failed", fmt.Sprintf("[%s] the Redis DEL of the ticket failed (%s) and the session is still stored, but sign-out answered %d instead of an error", cfg.Label, h.Fault, so.Code),
 				detail(map[string]interface{}{"redis_key_still_present": keyLeft, "status": so.Code, "location": so.Location()}))
@@ -894,6 +1021,15 @@ func (r *c11Runner) one(cfg *c11Cfg, h c11Hist) {
 			}
 		} else if h.Fault != "" {
 			run.Count("fault_histories", 1)
+			if fc := c11FaultClass(h.Fault); fc != "delete" {
+				run.Count(fc+"_fault_histories", 1)
+				if keyLeft != "" {
+					run.Count(fc+"_fault_histories_key_survived", 1)
+				}
+				if so.Code >= 400 {
+					run.Count(fc+"_fault_histories_answered_with_error", 1)
+				}
+			}
 			if keyLeft != "" {
 				run.Count("fault_histories_key_survived", 1)
 			}
@@ -1209,7 +1345,7 @@ func TestVerif_C11(t *testing.T) {
 	run.SetRule("histories login -> k in 0..3 authenticated requests (with refreshes that grow / shrink the ID token, also on the sign-out request itself) -> sign-out (GET / POST, rd none / relative / foreign) -> " +
 		"replay of every archived cookie alone, of each generation together and of the final jar on <prefix>/userinfo and a protected path; reverse-proxy deployments (Host internal, public host in X-Forwarded-Host, two cookie domains); Redis store with TWO instances sharing the store (one request on the second instance right before the sign-out, immediate replay there right after it); a sign-out fired while another request of the browser is held inside the provider refreshing the session (real concurrency); also 2-3 consecutive logins in one browser (different users / same user) before the sign-out, after which the cookies of EVERY earlier login must be dead and no key of the run may remain in Redis; " +
 		"stores cookie and Redis; cookie-domain none / parent / two domains (login and sign-out hosts exact, sub-domain, with port, different hosts under the parent, hosts for which different configured domains are selected, and a Host-rewriting front proxy: the browser addresses app.example.test while the proxy sees internal-svc:4180 / an IP literal / localhost, matching none of the configured domains); cookie-path / and /app/; " +
-		"cookie names default, 255, 256 characters and regexp metacharacters; sessions of 1..4+ cookies; Redis DEL failing through the RESP front (error before effect, dropped connection, nil reply, effect then error / drop). " +
+		"cookie names default, 255, 256 characters and regexp metacharacters; sessions of 1..4+ cookies and, for the cookie store, unusually large ones of 11+ and 14+ cookies (two-digit part indices; reached at login, by growing mid-history and by growing / shrinking on the sign-out request); Redis DEL failing through the RESP front (error before effect, dropped connection, nil reply, effect then error / drop); the store failing for the WHOLE sign-out request (every GET and every DEL of the ticket fail, in pairs of kinds; the whole store down from the first command on) and healthy again for the replays; latency: the DEL held by the store for 1.1-4.3 s (client read timeout 15 s, no retries) and then failing or carried out. " +
 		"cell = (store, session cookies presented at sign-out, refresh in history, domain/path configuration, method, name class[, fault]); non-trivial = every history (each ends in a judged sign-out)")
 	run.Assume("the browser follows RFC 6265 (a deletion only hits a cookie of the same name, domain and path)",
 		"cookie store: an archived cookie replayed by hand may still authenticate (stateless) — recorded, not judged",
@@ -1230,31 +1366,52 @@ func TestVerif_C11(t *testing.T) {
 	// Redis instances behind the fault-injecting front (error clause)
 	hub := vfNewRedisHub(w.Redis())
 	defer hub.Close()
-	hub.SetHooks(func(c *vfRedisCmd) vfRedisDecision {
+	decide := func(c *vfRedisCmd) vfRedisDecision {
 		if c.Op == "DEL" || c.Op == "GET" {
-			if kind, ok := faults.get(c.Key); ok {
-				// "GET:<kind>" = reads of this ticket fail (a DEL would succeed); "<kind>" = its DEL fails
-				if op := "DEL"; strings.HasPrefix(kind, "GET:") {
-					op, kind = "GET", strings.TrimPrefix(kind, "GET:")
-					if c.Op == op {
-						return vfRedisDecision{Fault: &vfRedisFault{Kind: kind}}
+			if spec, ok := faults.get(c.Key); ok {
+				if kind, hold, hit := c11FaultFor(spec, c.Op); hit {
+					d := vfRedisDecision{Gate: hold > 0}
+					if kind != "" {
+						d.Fault = &vfRedisFault{Kind: kind}
 					}
-				} else if c.Op == op {
-					return vfRedisDecision{Fault: &vfRedisFault{Kind: kind}}
+					return d
 				}
 			}
 		}
 		return vfRedisDecision{}
-	}, nil)
+	}
+	// held commands (latency): the decision — including the failure that follows — is taken before the hold
+	var heldCmds int64
+	hold := func(c *vfRedisCmd) {
+		if spec, ok := faults.get(c.Key); ok {
+			if _, d, hit := c11FaultFor(spec, c.Op); hit {
+				atomic.AddInt64(&heldCmds, 1)
+				time.Sleep(d)
+			}
+		}
+	}
+	hub.SetHooks(decide, hold)
+	// a second front with its own hub: the WHOLE store can go down for one request without touching any other configuration
+	hubOut := vfNewRedisHub(w.Redis())
+	defer hubOut.Close()
 	rng := rand.New(rand.NewSource(run.Env.Seed*523 + 1))
-	for i, spec := range []struct{ name, dom, path, params string }{
-		{"_oauth2_proxy", "none", "/", "max_retries=0"},
-		{c11Name(rng, 256), "parent", "/app/", "max_retries=0"},
-		{"my+cookie", "parent", "/", ""}, // default retries
-		{"_oauth2_proxy", "none", "/app/", "max_retries=2"},
+	for i, spec := range []struct{ name, dom, path, params, special string }{
+		{"_oauth2_proxy", "none", "/", "max_retries=0", ""},
+		{c11Name(rng, 256), "parent", "/app/", "max_retries=0", ""},
+		{"my+cookie", "parent", "/", "", ""}, // default retries
+		{"_oauth2_proxy", "none", "/app/", "max_retries=2", ""},
+		// latency: the client waits longer than the store holds a command, and does not retry
+		{"_oauth2_proxy", "none", "/", "read_timeout=15s&max_retries=-1", "slow"},
+		{"my+cookie", "parent", "/app/", "read_timeout=15s&max_retries=-1", "slow"},
+		// outage: the whole store is down for the sign-out request
+		{"_oauth2_proxy", "parent", "/", "max_retries=1", "outage"},
 	} {
 		f := hub.Front(i)
-		c := &c11Cfg{Store: "redis", Name: spec.name, Domain: spec.dom, Path: spec.path, Prefix: "/oauth2", Base: "/", Fronted: true}
+		c := &c11Cfg{Store: "redis", Name: spec.name, Domain: spec.dom, Path: spec.path, Prefix: "/oauth2", Base: "/", Fronted: true, Special: spec.special}
+		if spec.special == "outage" {
+			f = hubOut.Front(i)
+			c.hub = hubOut
+		}
 		c.Flags = []string{"--session-store-type=redis", "--cookie-name=" + spec.name, "--cookie-refresh=1m", "--insecure-oidc-skip-nonce=true", "--redis-connection-url=" + f.URL(spec.params)}
 		c.Hosts = [][2]string{{"proxy.test", "proxy.test"}}
 		if spec.dom == "parent" {
@@ -1266,6 +1423,9 @@ func TestVerif_C11(t *testing.T) {
 			c.Prefix, c.Base = "/app/oauth2", "/app/"
 		}
 		c.Label = fmt.Sprintf("redis-front/name=%s/domain=%s/path=%s/%s", c11NameClass(spec.name), spec.dom, spec.path, spec.params)
+		if spec.special != "" {
+			c.Label += "/" + spec.special
+		}
 		cfgs = append(cfgs, c)
 	}
 	for _, c := range cfgs {
@@ -1289,10 +1449,49 @@ func TestVerif_C11(t *testing.T) {
 	}
 	var jobs []job
 	faultKinds := []string{"err-before", "drop-before", "nil", "effect-err", "effect-drop"}
+	// the store fails for the WHOLE sign-out request: the reads of the session chain fail as well as every DEL (pairs of kinds)
+	outagePairs := []string{"ALL:err-before/err-before", "ALL:drop-before/drop-before", "ALL:nil/err-before", "ALL:err-before/drop-before", "ALL:drop-before/nil", "ALL:nil/nil", "ALL:err-before/nil", "ALL:drop-before/err-before"}
+	nSlowCfg := 0
+	var slowJobs, outageJobs []job // run next to the general job list (slow: each in its own goroutine; outage: one after the other)
 	for ci, c := range cfgs {
 		hs := c11Histories(run, c, ci)
+		if c.Special == "slow" {
+			// latency, not an error: the DEL of the sign-out is held by the store for longer than any reasonable patience of a handler
+			// (the client's read timeout is 15 s, no retries) and then fails — or is carried out. Simple histories (no refresh due).
+			holds := []string{"SLOW2600:err-before", "SLOW4300:drop-before", "SLOW1100:err-before", "SLOW2600:late-ok"}
+			if run.Env.Thorough() {
+				holds = append(holds, "SLOW2100:drop-before", "SLOW3300:nil", "SLOW6000:err-before", "SLOW700:drop-before", "SLOW5200:late-ok", "SLOW9000:err-before")
+			}
+			var simple []c11Hist
+			for _, h := range hs {
+				if len(h.RefreshAt) == 0 && len(h.Users) < 2 && !h.Expired {
+					simple = append(simple, h)
+				}
+			}
+			// quick: two held deletes per configuration (four in all, side by side); thorough: every hold on every configuration
+			for n := 0; n < run.Env.Pick(2, len(holds)); n++ {
+				h := simple[(n*5+nSlowCfg)%len(simple)]
+				h.Fault = holds[(2*nSlowCfg+n)%len(holds)]
+				slowJobs = append(slowJobs, job{cfg: c, h: h})
+			}
+			nSlowCfg++
+			continue
+		}
+		if c.Special == "outage" {
+			for hi, h := range hs {
+				if hi%run.Env.Pick(6, 2) == 0 {
+					h.Fault = "DOWN"
+					outageJobs = append(outageJobs, job{cfg: c, h: h})
+				}
+			}
+			continue
+		}
 		for hi, h := range hs {
 			if c.Fronted {
+				if hi%2 == 1 || run.Env.Thorough() {
+					h.Fault = outagePairs[(hi/2+ci)%len(outagePairs)]
+					jobs = append(jobs, job{cfg: c, h: h})
+				}
 				// every history once without fault (the front itself must be transparent) and with each fault kind in turn
 				if hi%3 == 0 {
 					jobs = append(jobs, job{cfg: c, h: h})
@@ -1320,6 +1519,18 @@ func TestVerif_C11(t *testing.T) {
 			}
 		}
 	}
+	var side sync.WaitGroup
+	for _, j := range slowJobs {
+		side.Add(1)
+		go func(j job) { defer side.Done(); r.one(j.cfg, j.h) }(j)
+	}
+	side.Add(1)
+	go func() {
+		defer side.Done()
+		for _, j := range outageJobs {
+			r.one(j.cfg, j.h) // one after the other: the outage of one history must not hit the login of the next
+		}
+	}()
 	perm := rand.New(rand.NewSource(7)).Perm(len(jobs))
 	vfParallel(len(jobs), 16, func(i int) {
 		if run.Violations() > 1000 {
@@ -1332,6 +1543,7 @@ func TestVerif_C11(t *testing.T) {
 		}
 		r.one(j.cfg, j.h)
 	})
+	side.Wait()
 
 	// key space of the store: before the first login vs after the last sign-out. Whatever is left must belong to a browser that
 	// did not complete a successful sign-out (fault histories, aborted histories); anything else is a session no sign-out removed,
@@ -1359,6 +1571,22 @@ func TestVerif_C11(t *testing.T) {
 		if c.Op == "GET" && c.Fault != "" {
 			injectedGet++
 		}
+	}
+	held, downCmds := int(atomic.LoadInt64(&heldCmds)), 0
+	for _, c := range hubOut.Log() {
+		if c.Fault == "down" {
+			downCmds++
+		}
+	}
+	run.Count("held_del_commands", int64(held))
+	run.Count("commands_refused_while_store_down", int64(downCmds))
+	if run.Counter("outage_fault_histories_key_survived") == 0 || downCmds == 0 || run.Counter("slow_fault_histories") == 0 || run.Counter("slow_fault_histories_key_survived") == 0 {
+		fmt.Printf("INCONCLUSIVE property=C11 reason=no sign-out under a store failing for the whole request left the session stored / the store never went down / no held DEL observed: the error clause under outage and latency was not exercised\n")
+		t.Fail()
+	}
+	if run.Counter("sign_outs_presenting_11+_session_cookies") == 0 || run.Counter("sign_outs_presenting_14+_session_cookies") == 0 {
+		fmt.Printf("INCONCLUSIVE property=C11 reason=no sign-out of a cookie-store session of more than 10 / more than 13 cookies observed\n")
+		t.Fail()
 	}
 	run.Count("injected_del_faults", int64(injected))
 	run.Count("injected_get_faults", int64(injectedGet))
